@@ -100,14 +100,6 @@ impl StepHook for MediumHook {
         }
         if let Some(p) = p {
             match p.origin() {
-                "dashu" if p.msg().contains("overflow") && p.file().ends_with("float/src/repr.rs") => {
-                    // extreme exponent in a well-formed float encoding: arithmetic overflow while normalising
-                    self.pending_soft = Some(Violation {
-                        class: "medium.dashu_panic.exponent_overflow".into(),
-                        step,
-                        detail: format!("{}: {} @{}:{}", op.name, p.msg(), p.file(), p.line),
-                    });
-                }
                 "dashu" => {
                     return Some(Violation {
                         class: "medium.dashu_panic".into(),
